@@ -66,6 +66,8 @@ func c09Catalogue() []Shape {
 		add(c.name+"@if", "if (true) { "+c.text+" } else { x = 1; } return 1;", false)
 		add(c.name+"@else", "if (false) { x = 1; } else { "+c.text+" } return 1;", false)
 		add(c.name+"@foreach-body", "foreach q in [1, 2] { "+c.text+" } return 1;", false)
+		add(c.name+"@after-unused-value", "len(\"x\"); "+c.text+" return 1;", false)
+		add(c.name+"@func-after-unused-value", "function w1() { len(\"x\"); h(1); "+c.text+" return 2; } z = w1(); return z;", false)
 		add(c.name+"@ternary-call", "function w1() { "+c.text+" return 1; } function w0() { return 0; } z = true ? w1() : w0(); return z;", false)
 		add(c.name+"@func-in-switch", "function w1() { "+c.text+" return 1; } switch (2) { case 2 { z = w1(); } } return z;", false)
 		add(c.name+"@func-in-foreach", "function w1() { "+c.text+" return 1; } foreach q in 1..3 { z = w1(); } return z;", false)
@@ -211,6 +213,9 @@ func (p *c09) Run(c *verifsim.Chooser, st *Stats, render bool) *Outcome {
 	opt := c.Intn(2) == 0
 	useRun := c.Intn(2) == 1
 	farDeadline := c.Intn(2) == 1 // the context also reports a (distant) deadline
+	// the context may also reach the evaluator the other documented way:
+	// Prepare, SetContext, Prepare again
+	prepTwice := mode == 1 && c.Intn(3) == 1
 	plan := c.Intn(5)
 	var k int64 = -1
 	hostCall := 0
@@ -255,6 +260,14 @@ func (p *c09) Run(c *verifsim.Chooser, st *Stats, render bool) *Outcome {
 	h.SlowTicks = slow
 	e := evalfilter.New(text)
 	h.install(e)
+	if prepTwice {
+		old := verifsim.NewSimContext(-1)
+		e.SetContext(old)
+		if err, esc := doPrepare(e, opt); err != nil || esc != nil {
+			return o
+		}
+		family += "+second-prepare"
+	}
 	e.SetContext(ctx)
 	if err, esc := doPrepare(e, opt); err != nil || esc != nil {
 		o.violate("C09/disturbed", family, "Prepare failed only with a simulated context: %v %v", err, esc)
